@@ -132,6 +132,14 @@ func NewBridge() (*Sock, error) {
 // BridgeAddr is the address the real client has to dial.
 func (s *Sock) BridgeAddr() string { return s.bridge.LocalAddr().String() }
 
+// BridgeAddr2 returns the bridge address or "" for an in-memory socket.
+func (s *Sock) BridgeAddr2() string {
+	if s.bridge == nil {
+		return ""
+	}
+	return s.bridge.LocalAddr().String()
+}
+
 // CloseBridge ends a bridge socket (the harness side).
 func (s *Sock) CloseBridge() {
 	if s.bridge != nil {
@@ -354,20 +362,20 @@ func (s *Sock) Deliver(svc knxnet.Service) bool {
 		if peer == nil {
 			return false
 		}
+		// the log entry comes first (an acknowledgement is "delivered" no later than
+		// the client can act on it), the datagram follows under the same lock
 		s.mu.Lock()
 		if s.closed {
 			s.mu.Unlock()
 			return false
 		}
-		s.mu.Unlock()
-		if _, err := s.bridge.WriteToUDP(raw, peer); err != nil {
-			return false
-		}
-		s.mu.Lock()
 		ri := len(s.log)
 		now := time.Since(s.start)
 		s.log = append(s.log, Event{Idx: ri, T: now, Kind: Rx, Svc: svc, P: parseSvc(svc), Bytes: raw, Taken: true, TakenAt: ri + 1, TakenT: now})
 		s.mu.Unlock()
+		if _, err := s.bridge.WriteToUDP(raw, peer); err != nil {
+			return false
+		}
 		return true
 	}
 	it := rxItem{svc: svc, done: make(chan bool, 1)}
@@ -376,6 +384,20 @@ func (s *Sock) Deliver(svc knxnet.Service) bool {
 		return <-it.done
 	case <-s.done:
 		return false
+	}
+}
+
+// DeliverFast hands a frame to the client from the calling goroutine, without
+// the receiver hop and without a log entry (stress workloads that need a high
+// telegram rate); bounded by d.
+func (s *Sock) DeliverFast(svc knxnet.Service, t *time.Timer) (taken, expired bool) {
+	select {
+	case s.inbound <- svc:
+		return true, false
+	case <-s.done:
+		return false, false
+	case <-t.C:
+		return false, true
 	}
 }
 
